@@ -2145,6 +2145,11 @@ def unroll_constant_loops(rel, module):
                 nstores[n.id] = nstores.get(n.id, 0) + 1
             if isinstance(n, ast.Assign) and len(n.targets) == 1 and isinstance(n.targets[0], ast.Name) and isinstance(n.value, (ast.List, ast.Tuple)):
                 lits[n.targets[0].id] = n.value
+        dlits = {n.targets[0].id: n.value for n in ast.walk(fn) if isinstance(n, ast.Assign) and len(n.targets) == 1
+                 and isinstance(n.targets[0], ast.Name) and isinstance(n.value, ast.Dict)}
+        dmut = {x.value.id for x in ast.walk(fn) if isinstance(x, ast.Subscript) and isinstance(x.ctx, (ast.Store, ast.Del)) and isinstance(x.value, ast.Name)} | \
+               {x.func.value.id for x in ast.walk(fn) if isinstance(x, ast.Call) and isinstance(x.func, ast.Attribute) and isinstance(x.func.value, ast.Name)
+                and x.func.attr in ('update', 'pop', 'popitem', 'clear', 'setdefault')}
         mutated = {n.func.value.id for n in ast.walk(fn) if isinstance(n, ast.Call) and isinstance(n.func, ast.Attribute)
                    and isinstance(n.func.value, ast.Name) and n.func.attr in ('append', 'extend', 'insert', 'pop', 'remove', 'sort',
                                                                              'reverse', 'clear')}
@@ -2163,6 +2168,14 @@ def unroll_constant_loops(rel, module):
                     table = st.iter
                     if isinstance(table, ast.Name) and table.id in lits and nstores.get(table.id) == 1 and table.id not in mutated:
                         table = lits[table.id]
+                    # `for k, v in {k1: v1, ...}.items()` (a dict display, directly or through a local bound once): the same table
+                    if isinstance(table, ast.Call) and isinstance(table.func, ast.Attribute) and table.func.attr == 'items' and not table.args:
+                        dsp = table.func.value
+                        if isinstance(dsp, ast.Name) and dsp.id in dlits and nstores.get(dsp.id) == 1 and dsp.id not in dmut:
+                            dsp = dlits[dsp.id]
+                        if isinstance(dsp, ast.Dict) and dsp.keys and all(k_ is not None and isinstance(k_, ast.Constant) for k_ in dsp.keys) \
+                                and len({repr(k_.value) for k_ in dsp.keys}) == len(dsp.keys):
+                            table = ast.List(elts=[ast.Tuple(elts=[k_, v_], ctx=ast.Load()) for k_, v_ in zip(dsp.keys, dsp.values)], ctx=ast.Load())
                     if not isinstance(table, (ast.List, ast.Tuple)) or not (1 <= len(table.elts) <= 16):
                         continue
                     if any(isinstance(x, (ast.Break, ast.Continue)) for b in st.body for x in ast.walk(b)):
